@@ -12,6 +12,16 @@ use crate::mon;
 use crate::rng::Rng;
 use std::io::Cursor;
 
+/// A bzip2 stream of three blocks (level 1: 100 kB blocks), built once.
+fn multi_block_stream() -> &'static [u8] {
+    static S: std::sync::OnceLock<Vec<u8>> = std::sync::OnceLock::new();
+    S.get_or_init(|| {
+        let mut rng = Rng::derive(0x9015_0A11, 78, 0);
+        let payload: Vec<u8> = (0..260_000).map(|i| if i % 3 == 0 { rng.u8() } else { (i % 251) as u8 }).collect();
+        enc::bzip2_compress(&payload, 1)
+    })
+}
+
 pub fn run(index: u64) {
     let mut rng = Rng::derive(0x9015_0A11, 77, index);
     for _ in 0..3 {
@@ -66,10 +76,16 @@ pub fn run(index: u64) {
                 let _ = mon::catch(|| a.merge(b).is_ok());
             }
             7 => {
-                // a record that claims to be bzip2 and is not; a file shorter than its header
+                // a record that claims to be bzip2 and is not; a multi-block stream that breaks off
+                // inside a later block (fails *after* producing output); a file shorter than its header
                 let mut r = vec![0, 0, 0, 12];
                 r.extend_from_slice(b"BZh9");
                 r.extend_from_slice(&rng.bytes(8));
+                let _ = mon::catch(|| nexrad_data::volume::Record::new(r).decompress().is_ok());
+                let whole = multi_block_stream();
+                let cut = whole.len() - 1 - rng.usize_below(whole.len() / 3);
+                let mut r = (cut as u32).to_be_bytes().to_vec();
+                r.extend_from_slice(&whole[..cut]);
                 let _ = mon::catch(|| nexrad_data::volume::Record::new(r).decompress().is_ok());
                 let n = rng.usize_below(30);
                 let f = nexrad_data::volume::File::new(rng.bytes(n));
